@@ -13,6 +13,8 @@ RECURSIVE PowI(_, _), Fact(_)
 PowI(b, e) == IF e = 0 THEN 1 ELSE b * PowI(b, e - 1)
 Fact(n)    == IF n = 0 THEN 1 ELSE n * Fact(n - 1)
 CeilDiv(a, b)  == (a + b - 1) \div b
+RECURSIVE Pow2(_)
+Pow2(k) == IF k = 0 THEN 1 ELSE 2 * Pow2(k - 1)
 
 \* tendiag / sptendiag: shape max(len(e), s_k) per mode (or len(e)^len(e) without shape)
 DiagShape(e, s, hasShape) == IF hasShape THEN [k \in 1..Len(s) |-> Max2(Len(e), s[k])]
@@ -91,6 +93,14 @@ GenWhy(op, a, res) ==
               ELSE IF res.obj.shape # a.shape THEN "shape"
               ELSE IF ~CountOk(Len(res.obj.subs), Prod(a.shape), a.req) THEN "number-of-nonzeros"
               ELSE IF ~res.values_from_function THEN "values-not-from-function"
+              ELSE IF ~res.reproducible THEN "not-reproducible" ELSE "ok"
+         [] op = "sptenrand_pow2" ->
+              \* a: widths (mode k has 2^widths[k] indices: up to 2^64 cells), dexp (density 2^-dexp), seed.  The number of
+              \* cells is never formed here: the requested count is 2^(sum of the widths - dexp) exactly
+              IF res.obj.kind # "sparse" THEN "result-kind"
+              ELSE IF WhyWF(res.obj, TRUE) # "ok" THEN WhyWF(res.obj, TRUE)
+              ELSE IF res.obj.shape # [k \in 1..Len(a.widths) |-> Pow2(a.widths[k])] THEN "shape"
+              ELSE IF Len(res.obj.subs) # Pow2(SumSeq(a.widths) - a.dexp) THEN "number-of-nonzeros"
               ELSE IF ~res.reproducible THEN "not-reproducible" ELSE "ok"
          [] op = "tenrand" ->
               IF res.shape # a.shape THEN "shape"
